@@ -2,6 +2,7 @@ package main
 
 import (
 	"go/constant"
+	"go/token"
 	"go/types"
 	"strings"
 
@@ -163,6 +164,39 @@ func (e *Engine) builtinSpec(fr *frame, fn *ssa.Function, args []Val, st *State,
 		}
 	}
 	switch fn.String() {
+	case "encoding/json.Unmarshal":
+		// json.Unmarshal(data, &m) with m a map[string]any: the resulting map is a function of the
+		// bytes (uninterpreted): which root keys exist, how many, and each value. Nothing else is said.
+		if len(fr.curCallArgs) == 2 {
+			if mi, ok := fr.curCallArgs[1].(*ssa.MakeInterface); ok {
+				if pt, ok := mi.X.Type().Underlying().(*types.Pointer); ok {
+					if mt, ok := pt.Elem().Underlying().(*types.Map); ok && isStringType(mt.Key()) {
+						bv := vc.bytesVal(st, args[0].t)
+						vc.declareRaw("maplen!String", "(declare-fun maplen!String ((Array String Bool)) Int)")
+						ref := vc.newRef(st, "jsonmap")
+						pk, ps, vk, vs := fr.mapHeaps(mt)
+						hp := vc.heapGet(st, pk, ps)
+						hv := vc.heapGet(st, vk, vs)
+						vc.logWrite(pk, ref)
+						vc.logWrite(vk, ref)
+						vc.heapSet(st, pk, ps, "(store "+hp+" "+ref+" (jsonKeys "+bv+"))")
+						vc.heapSet(st, vk, vs, "(store "+hv+" "+ref+" (jsonVals "+bv+"))")
+						vc.assume(alive, "(= (maplen!String (jsonKeys "+bv+")) (jsonNumKeys "+bv+"))")
+						vc.assume(alive, "(>= (jsonNumKeys "+bv+") 0)")
+						errv := vc.havocVal(fn.Signature.Results().At(0).Type(), "err_json", st.alloc)
+						vc.assume(alive, "(= (= (itag "+errv.t+") 0) (jsonOK "+bv+"))")
+						// the destination variable holds the new map on success
+						dst := fr.operand(mi.X, fr.curEnv)
+						okc := "(= (itag " + errv.t + ") 0)"
+						cur := fr.loadThrough(st, dst, pt.Elem(), alive)
+						fr.storeThrough(st, dst, pt.Elem(), Val{t: "(ite " + okc + " " + ref + " " + cur.t + ")"}, alive, fn.Pos(), func(kind, what string, pos token.Pos, cond string) {})
+						vc.usedSpecs["encoding/json.Unmarshal into map[string]any: root keys/values are uninterpreted functions of the bytes [engine built-in]"] = true
+						return &errv
+					}
+				}
+			}
+		}
+		return nil
 	case "fmt.Sprintf":
 		if len(fr.curCallArgs) == 2 {
 			if c, ok := fr.curCallArgs[0].(*ssa.Const); ok && c.Value != nil && c.Value.Kind() == constant.String {
